@@ -7,7 +7,7 @@ from twisted.conch import telnet
 from twisted.internet.testing import StringTransport
 
 HEADLINE = "TwistedProps.C38.transparent"
-RULE = ("send: 1..5 write/writeSequence calls whose byte strings are drawn from an alphabet rich in 0xFF, LF, "
+RULE = ("send: 1..5 write/writeSequence calls (the sequence as list, tuple, generator or iterator) whose byte strings are drawn from an alphabet rich in 0xFF, LF, "
         "the telnet command bytes 0xEF..0xFE, NUL (and CR in a minority of cases, tie only), the wire cut at "
         "none / every / random offsets (empty segments included); recv: raw wire streams from the telnet grammar "
         "(data, IAC IAC, IAC cmd, IAC WILL/WONT/DO/DONT opt, IAC SB … IAC SE, CR LF / CR NUL / bare CR / CR IAC, "
@@ -109,8 +109,20 @@ def _send(ops):
         if op[0] == "w":
             t.write(unhx(op[1]))
         else:
-            t.writeSequence([unhx(x) for x in op[1]])
+            t.writeSequence(_container([unhx(x) for x in op[1]], op[2] if len(op) > 2 else "list"))
     return st.value()
+
+
+def _container(items, kind):
+    """ITransport.writeSequence takes any Iterable[bytes]: lists, tuples and ONE-SHOT iterables (seeded change C38-2
+    scanned the argument before joining it, which empties a generator)"""
+    if kind == "tuple":
+        return tuple(items)
+    if kind == "gen":
+        return (x for x in items)
+    if kind == "iter":
+        return iter(items)
+    return items
 
 
 def _cut(w, cuts):
@@ -193,6 +205,9 @@ def corpus():
         {"op": "send", "cuts": [], "ops": [["w", "78fff4790a"]]},
         {"op": "send", "cuts": [1, 2, 3, 4, 5, 6, 7], "ops": [["w", "ffff0a0aff"], ["s", ["ff", "0a"]], ["w", "-"]]},
         {"op": "send", "cuts": [], "ops": [["s", []]]},
+        # one-shot iterables (seeded change C38-2): nothing special / something special in the middle
+        {"op": "send", "cuts": [], "ops": [["s", ["61", "62"], "gen"], ["s", ["616263", "fff4", "6c0a", "ff", "ff65"], "iter"]]},
+        {"op": "send", "cuts": [2], "ops": [["s", ["ff", "0a", "78"], "tuple"], ["w", "79"]]},
         {"op": "send", "cuts": [0, 0, 3], "ops": [["s", ["-", "61", "-"]], ["w", "fffb01"]]},
         {"op": "send", "cuts": [1], "ops": [["w", "0d0a"]]},           # CR in data: outside the precondition, tie only
         {"op": "send", "cuts": [], "ops": [["w", "610d"]]},
@@ -220,7 +235,8 @@ def _gen_send(rng):
         if rng.random() < 0.5:
             ops.append(["w", hx(_bytes(rng, rng.choice([0, 1, 2, 3, 5, 8, 13]), cr))])
         else:
-            ops.append(["s", [hx(_bytes(rng, rng.choice([0, 1, 1, 2, 4, 7]), cr)) for _ in range(rng.choice([0, 1, 2, 3, 4]))]])
+            ops.append(["s", [hx(_bytes(rng, rng.choice([0, 1, 1, 2, 4, 7]), cr)) for _ in range(rng.choice([0, 1, 2, 3, 4]))],
+                        rng.choice(["list", "list", "tuple", "gen", "iter"])])
     c = {"op": "send", "ops": ops, "cuts": []}
     n = 2 * len(_payload(c)) + 2
     m = rng.random()
@@ -319,11 +335,13 @@ def shrink(c):
                 yield {"op": "send", "ops": ops[:i] + [["w", hx(b[:j] + b[j + 1:])]] + ops[i + 1:], "cuts": cuts}
         else:
             el = op[1]
+            if len(op) > 2 and op[2] != "list":
+                yield {"op": "send", "ops": ops[:i] + [["s", el]] + ops[i + 1:], "cuts": cuts}
             for k in range(len(el)):
-                yield {"op": "send", "ops": ops[:i] + [["s", el[:k] + el[k + 1:]]] + ops[i + 1:], "cuts": cuts}
+                yield {"op": "send", "ops": ops[:i] + [["s", el[:k] + el[k + 1:]] + op[2:]] + ops[i + 1:], "cuts": cuts}
                 b = unhx(el[k])
                 for j in range(len(b)):
-                    yield {"op": "send", "ops": ops[:i] + [["s", el[:k] + [hx(b[:j] + b[j + 1:])] + el[k + 1:]]] + ops[i + 1:],
+                    yield {"op": "send", "ops": ops[:i] + [["s", el[:k] + [hx(b[:j] + b[j + 1:])] + el[k + 1:]] + op[2:]] + ops[i + 1:],
                            "cuts": cuts}
 
 
@@ -340,7 +358,7 @@ def tag(c, out):
         return f"recv:{ev}:{state}:{min(len(c['segs']), 3)}"
     pay = _payload(c)
     sp = "".join(t for t, b in (("F", b"\xff"), ("L", b"\n"), ("R", b"\r")) if b in pay)
-    kinds = "".join(sorted({op[0] for op in c["ops"]}))
+    kinds = "".join(sorted({op[0] for op in c["ops"]} | {op[2][0].upper() for op in c["ops"] if len(op) > 2 and op[2] != "list"}))
     split = ""
     if out.startswith("wire="):
         w = unhx(out.split(" ", 1)[0][5:])
